@@ -22,7 +22,7 @@ from ..refmodels import ref_envelope_opts
 from ..monitors import StageTrace
 
 MANIFEST = {
-    'text': 'Held on every stage event recorded: each of the six sift variants (mask_sift with all four mask-frequency sources) and the public helpers get_next_imf_mask / get_mask_freqs is called with non-default option groups delivered by keyword dicts, by SiftConfig unpacking and by the get_func partial, with 1-3 worker processes; every get_next_imf / interp_envelope / get_padded_extrema call made in any process on behalf of the call is logged with its effective keyword arguments and checked against the supplied options. The grid (variant x option sets x route x nprocesses) is enumerated completely in the thorough tier and sampled in the quick tier; the run is inconclusive unless every (variant, route) cell produced events and multi-process calls produced events from >= 2 worker pids.',
+    'text': 'Held on every stage event recorded: each of the six sift variants (mask_sift with all four mask-frequency sources) and the public helpers get_next_imf_mask / get_mask_freqs is called with non-default option groups delivered by keyword dicts, by SiftConfig unpacking and by the get_func partial, with 1-3 worker processes; every get_next_imf / interp_envelope / get_padded_extrema call made in any process on behalf of the call is logged with its effective keyword arguments and checked against the supplied options. The grid (variant x option sets x route x nprocesses) is enumerated completely in the thorough tier and sampled in the quick tier; the run is inconclusive unless every (variant, route) cell produced events and multi-process calls produced events from >= 2 worker pids. A quarter of the shards run in a session that turns Deprecation/Future/UserWarnings into errors.',
     'note': 'Trusted: the wrappers see exactly what the callee receives (functools.wraps closures on module attributes; fork start method asserted). Location padding is kept at odd reflection (other np.pad modes cannot reach below 0, an input-validity matter).',
     'technique': 'offline trace-specification checker over per-process event logs written by recording wrappers on the real stage functions (incl. forked workers)',
 }
